@@ -4,6 +4,7 @@ from vf import Case
 
 ID = "C10"
 DRIVER = "drv_persist"
+KEEP_PREFIX = 1        # ps.init
 HARNESS = "h_persist"
 RULE = ("data sizes 1..12 (quick) / 1..40 (thorough) x placements {0, 1, 7, 1000} x {trivial sum, CRC-16/ARC, 32-bit sum} x auxiliary buffer "
         "sizes none, 0..size+1: full store, validate, fetch; every (offset, length) partial store and partial fetch incl. lengths/offsets "
@@ -58,8 +59,10 @@ def cases(tier, seed):
                        "ps.validate", "ps.store %s" % data, "ps.validate", "ps.fetch"]
                 # partial stores / fetches: every (offset, length) once in a while, sampled otherwise
                 pairs = [(o, l) for o in range(0, ds + 2) for l in range(0, ds + 2)]
-                if tier == "quick" and len(pairs) > 30:
-                    pairs = rnd.sample(pairs, 30)
+                # every pair for the small sizes, a sample beyond (the op count grows with size^3 otherwise)
+                limit = 30 if tier == "quick" else 120
+                if len(pairs) > limit:
+                    pairs = rnd.sample(pairs, limit)
                 for (o, l) in pairs:
                     ops.append("ps.storepart %s %d" % (rhex(rnd, l), o))
                     ops.append("ps.validate")
